@@ -377,6 +377,17 @@ def all_cases(tier):
             for args in arg_vectors(params, ARGS):
                 for mode in MODES:
                     out.append((params, bname, fnsig, body, tuple(other), args, mode))
+    # parameter lists that name the same variable twice (literally or through the default sigil):
+    # only the body that does not depend on which argument wins is judged; the caller's variables
+    # must be untouched all the same
+    dups = [('X', 'X'), ('X%', 'X%'), ('X$', 'X$'), ('Y#', 'Y#'), ('X', 'Y#', 'X'), ('X%', 'X', 'X%')]
+    for params in (dups[:4] if quick else dups):
+        for bname, fnsig, body, other in bodies(params):
+            if bname != 'glob':
+                continue
+            for args in arg_vectors(params, ARGS_SMALL if len(params) > 2 else ARGS):
+                for mode in MODES:
+                    out.append((params, bname, fnsig, body, tuple(other), args, mode))
     if not quick:
         for params in param_lists(4, exact=4):
             for bname, fnsig, body, other in bodies(params):
@@ -413,7 +424,7 @@ def legs(ctx):
     n = len(cases)
     size = 150
     return [Leg('calls', [(ctx.tier, lo, min(n, lo + size)) for lo in range(0, n, size)], work, exhaustive=True,
-                bound='%d programs: all ordered lists of <= %d distinct parameters of {X, X%%, X$, Y#}%s x well-typed '
+                bound='%d programs: all ordered lists of <= %d distinct parameters of {X, X%%, X$, Y#}%s (+ lists naming a parameter twice) x well-typed '
                       'bodies x full product of argument alphabets (! %d, %% %d, $ %d, # %d values) x 4 call modes' % (
                           n, 2 if ctx.quick else 3,
                           '' if ctx.quick else ' (+ all 24 lists of 4 with 2 values per parameter)',
